@@ -284,7 +284,7 @@ ARENA.update({
         x=['prepare-moved-a-bump-position', 'try-with-mut-panic-moved-a-position', 'try-with-mut-panic', 'prepared-capacity-smaller-than-requested', 'committed-slice-lost-contents',
            'commit-advanced-position-by-more-than-contents-plus-padding', 'block-contents-changed', 'live-blocks-overlap', 'panic'],
         mism=['prepared-range', 'result-block', 'block-contents', 'stats'],
-        note='PARTIAL: prepare/fill/commit primitives (typed+dyn, forward+reverse) proved incl. invariant preservation and prepare => commit contract; the collection layer (growth policy) is exercised on the real MutBumpVec(Rev) only'),
+        note='prepare/fill/commit primitives (typed+dyn, forward+reverse) proved incl. invariant preservation and prepare => commit contract; every SEQUENCE of prepare / write steps keeps all chunks up to the original current one unchanged and leaves at most a later, empty chunk current (ArenaFill.v); the growth policy is the capacity model of C08 (VecCap.v, MutBumpVec(Rev) included); PARTIAL: iterator size hints and the *_mut helpers on top are exercised on the implementation'),
     'C17': dict(
         x=['panic', 'block-misaligned', 'live-blocks-overlap', 'entry-points-differ'],
         mism=['result-block', 'result-kind', 'prepared-range', 'stats', 'block-contents'],
